@@ -24,6 +24,16 @@ RUNS_PYTHON = {
     'PyObject_HasAttrString', 'PyObject_HasAttr', 'PySequence_Tuple',
     'PySequence_List', 'PyObject_Hash', 'PyObject_Str', 'PyObject_Repr',
     'PyObject_GetIter', 'PyIter_Next', 'PyImport_ImportModule',
+    'PySequence_Fast', 'PySequence_GetItem', 'PySequence_GetSlice', 'PySequence_Size',
+    'PySequence_Length', 'PySequence_Contains', 'PyObject_Size', 'PyObject_Length',
+    'PyObject_SetItem', 'PyObject_DelItem', 'PyObject_SetAttrString',
+    'PyObject_DelAttr', 'PyObject_DelAttrString', 'PyNumber_Add', 'PyNumber_Long',
+    'PyObject_Not', 'PyObject_Type', 'PyObject_Dir', 'PyObject_CallNoArgs',
+    'PyObject_CallOneArg', 'PyObject_Vectorcall', 'PyObject_CallFunction',
+    'PyObject_GenericGetAttr', 'PyObject_GenericSetAttr', 'PyImport_Import',
+    'PyImport_ImportModuleLevel', 'PyEval_CallObject', 'PyObject_Format',
+    'PyObject_ASCII', 'PyObject_Bytes', 'PySet_Add', 'PySet_Contains', 'PySet_Discard',
+    'PyMapping_GetItemString', 'PyMapping_Keys', 'PyObject_GetOptionalAttr',
 }
 DECREFS = {'Py_DECREF', 'Py_XDECREF', 'Py_CLEAR'}
 HASHES_KEY = {'PyDict_GetItem', 'PyDict_SetItem', 'PyDict_DelItem',
@@ -52,6 +62,27 @@ PURE = {
     'Py_IsNone', 'Py_NewRef', 'Py_XNewRef', 'PyTuple_GetItem', 'PyList_GET_ITEM',
     'PyList_GetItem', 'PyList_SET_ITEM', 'PyList_Size', 'PyObject_GC_Del',
     'PyObject_GC_New', 'PyErr_WarnEx', 'PyErr_GivenExceptionMatches',
+    # more of the stable API that never runs Python code (documented effects)
+    'PyUnicode_InternInPlace', 'PyUnicode_InternFromString', 'PyUnicode_FromFormat',
+    'PyUnicode_FromStringAndSize', 'PyUnicode_Concat', 'PyUnicode_GetLength',
+    'PyLong_FromSsize_t', 'PyLong_AsSsize_t', 'PyLong_FromSize_t',
+    'PyLong_FromUnsignedLong', 'PyFloat_FromDouble', 'PyTuple_SetItem',
+    'PyList_SetItem', 'PyList_Insert', 'PyList_AsTuple', 'PyList_GetSlice',
+    'PyList_CheckExact', 'PySet_New', 'PyFrozenSet_New', 'PySet_Size',
+    'PyDict_Copy', 'PyDict_Next', 'PyDict_Keys', 'PyDict_Values', 'PyDict_Items',
+    'PyDict_SetItemString', 'PyDict_DelItemString', 'PyErr_Fetch', 'PyErr_Restore',
+    'PyErr_SetNone', 'PyErr_NormalizeException', 'PyErr_WriteUnraisable',
+    'PyWeakref_NewRef', 'PyWeakref_GetObject', 'PyWeakref_GET_OBJECT',
+    'PyCapsule_New', 'PyCapsule_GetPointer', 'PyMem_Malloc', 'PyMem_Free',
+    'PyObject_Malloc', 'PyObject_Free', 'PyType_Ready', 'PyType_GenericAlloc',
+    'PyType_GenericNew', 'PyModule_GetDict', 'PyModule_AddObjectRef',
+    'PyModule_AddIntConstant', 'PyModule_AddStringConstant', 'PyState_FindModule',
+    'PyThreadState_Get', 'PyGILState_Ensure', 'PyGILState_Release', 'Py_FatalError',
+    'PyBytes_FromString', 'PyBytes_AsString', 'PyBytes_Check', 'PyFloat_Check',
+    'PyBool_Check', 'PySuper_Check', 'PyModule_Check', 'PyMethod_Check',
+    'PyFunction_Check', 'PyCFunction_Check', 'PyObject_GetAttrId',
+    'Py_EnterRecursiveCall', 'Py_LeaveRecursiveCall', 'PyMethod_GET_SELF',
+    'PyMethod_GET_FUNCTION', 'PyMethod_Self', 'PyMethod_Function', 'abort', 'assert',
 }
 NEW = {
     'PySequence_Tuple', 'PySequence_List', 'PyObject_CallMethodObjArgs',
@@ -61,11 +92,27 @@ NEW = {
     'PyObject_RichCompare', 'PyUnicode_FromString', 'PyTuple_Pack',
     'PyLong_FromLong', 'PyImport_ImportModule', 'PyObject_Str',
     'PyBool_FromLong', 'PyList_New', 'PyType_FromModuleAndSpec',
-    'Py_NewRef', 'Py_XNewRef',
+    'Py_NewRef', 'Py_XNewRef', 'PyObject_CallNoArgs', 'PyObject_CallOneArg',
+    'PyObject_Vectorcall', 'PyObject_CallFunction', 'PyObject_CallMethod',
+    'PyImport_Import', 'PyImport_ImportModuleLevel', 'PyObject_GenericGetAttr',
+    'PyObject_Format', 'PyObject_ASCII', 'PyObject_Bytes', 'PyMapping_GetItemString',
+    'PyMapping_Keys',
+    'PyUnicode_InternFromString', 'PyUnicode_FromFormat',
+    'PyUnicode_FromStringAndSize', 'PyUnicode_Concat', 'PyLong_FromSsize_t',
+    'PyLong_FromSize_t', 'PyLong_FromUnsignedLong', 'PyFloat_FromDouble',
+    'PyList_AsTuple', 'PyList_GetSlice', 'PySet_New', 'PyFrozenSet_New',
+    'PyDict_Copy', 'PyDict_Keys', 'PyDict_Values', 'PyDict_Items',
+    'PyWeakref_NewRef', 'PyCapsule_New', 'PyType_GenericAlloc', 'PyType_GenericNew',
+    'PyBytes_FromString', 'PyObject_Repr', 'PyObject_GetIter', 'PyIter_Next',
+    'PySequence_Fast', 'PySequence_GetItem', 'PySequence_GetSlice',
+    'PyNumber_Add', 'PyNumber_Long', 'PyObject_Type', 'PyObject_Dir',
 }
 BORROWED = {'PyDict_GetItem', 'PyTuple_GET_ITEM', 'PyDict_GetItemString',
             'PyDict_GetItemWithError', 'PyTuple_GetItem', 'PyList_GET_ITEM',
-            'PyList_GetItem'}
+            'PyList_GetItem', 'PyWeakref_GetObject', 'PyWeakref_GET_OBJECT',
+            'PyModule_GetDict', 'PyMethod_GET_SELF', 'PyMethod_GET_FUNCTION',
+            'PyMethod_Self', 'PyMethod_Function', 'PySequence_Fast_GET_ITEM',
+            'PyState_FindModule'}
 STEALS = {'PyTuple_SET_ITEM': 2}
 
 
